@@ -202,6 +202,74 @@ def overlap_check(run: lib.Run, n: int) -> None:
                 return
 
 
+def translated_vs_python(run: lib.Run, n: int) -> tuple[bool, str]:
+    """the translated source (Generated.Src.*, evaluated by `lake env lean --run Rbacx/Run/SrcEval.lean`) against the real Python
+    functions on the same arguments: validates the translator and Model/PyLib.lean (what the obligation C03_translated trusts)"""
+    import json
+    import subprocess
+    from rbacx.core import compiler as rcompiler, policy as rpolicy, policyset as rset
+    r = random.Random(run.seed * 211 + 5)
+    types = [None, "doc", "*", "", ["doc", "file"], ["*", "doc"], [], [1, "doc"], ["*"], 1, True, {"a": 1}, ["doc", None, "*", "img"]]
+    ids = ["<absent>", None, "1", 1, "", 0, False]
+    attrs = ["<absent>", None, {}, {"k": 1}, [], "x", {"a": None}]
+    acts = [["read"], ["*"], [], None, "read", ["read", 1, "*"], {"read": 1}, 5, ["write", "read"]]
+    calls = []
+    for _ in range(n):
+        rd = {}
+        t, i, a = gen.choice(r, types), gen.choice(r, ids), gen.choice(r, attrs)
+        if t is not None or r.random() < 0.5:
+            rd["type"] = t
+        if i != "<absent>":
+            rd["id"] = i
+        if a != "<absent>":
+            rd["attrs" if r.random() < 0.7 else "attributes"] = a
+        rule = {"id": "r", "effect": "permit", "resource": rd if r.random() < 0.9 else gen.choice(r, [None, {}])}
+        ac = gen.choice(r, acts)
+        if ac is not None or r.random() < 0.5:
+            rule["actions"] = ac
+        rt = gen.choice(r, [None, "doc", "file", "*", "", "1", "img"])
+        action = gen.choice(r, ["read", "write", "*", "", "r", 1, None])
+        rtypes = rcompiler._resource_types(rule)
+
+        def call(fn, args, f):
+            try:
+                calls.append((fn, args, ("ok", f())))
+            except Exception as e:  # noqa: BLE001
+                calls.append((fn, args, ("raised", type(e).__name__)))
+        call("_actions", [rule], lambda: list(rcompiler._actions(rule)))
+        call("_resource_types", [rule], lambda: list(rcompiler._resource_types(rule)))
+        call("_has_id", [rule], lambda: rcompiler._has_id(rule))
+        call("_has_attrs", [rule], lambda: rcompiler._has_attrs(rule))
+        call("_type_matches", [list(rtypes), rt], lambda: rcompiler._type_matches(rtypes, rt))
+        call("_categorize", [rule, rt], lambda: rcompiler._categorize(rule, rt))
+        call("match_actions", [rule, action], lambda: rpolicy.match_actions(rule, action))
+        res = {"decision": gen.choice(r, ["permit", "deny"]), "reason": gen.choice(r, ["matched", "explicit_deny", "no_match", "condition_mismatch", ""]),
+               "rule_id": gen.choice(r, [None, "r1", "", 5]), "last_rule_id": gen.choice(r, [None, "r2", "", ["x"]]), "policy_id": None, "obligations": []}
+        call("_is_applicable", [res], lambda: rset._is_applicable(res))
+    lines, wants = [], []
+    for fn, args, want in calls:
+        wants.append(want)
+        lines.append(json.dumps({"fn": fn, "args": [proto.enc(a) for a in args]}))
+    p = subprocess.run(["lake", "env", "lean", "--run", "Rbacx/Run/SrcEval.lean"], cwd=lib.LEAN, input="\n".join(lines) + "\n",
+                       capture_output=True, text=True, timeout=900)
+    outs = [ln for ln in p.stdout.split("\n") if ln]
+    if p.returncode != 0 or len(outs) != len(lines):
+        return False, (p.stderr or p.stdout)[-800:]
+    bad = 0
+    for (fn, args, _), want, ln in zip(calls, wants, outs):
+        got = json.loads(ln)
+        run.count("translated-vs-python")
+        if want[0] != "ok":
+            continue          # the Python function raised (outside the translated subset's domain): not judged
+        if "value" not in got or proto.dec(got["value"]) != want[1]:
+            bad += 1
+            if bad == 1:
+                run.disagreements.append({"policy": None, "request": None, "cfg": None, "impl": {"python": repr(want[1])}, "model": got,
+                                          "what": f"translated {fn} (Generated.Src) and the Python function differ", "args": repr(args)[:400]})
+    run.evaluations += len(calls)
+    return bad == 0, f"{bad} of {len(calls)} calls differ" if bad else "agree"
+
+
 def irrelevant_rule(r: random.Random, req: dict) -> dict:
     """a rule whose action or resource target cannot match the request"""
     k = r.randrange(3)
@@ -269,6 +337,8 @@ def check(run: lib.Run, audit: dict) -> int:
     run.obligation("C03_translated: Generated.Src.{_actions,_resource_types,_has_id,_has_attrs,_type_matches,_categorize,match_actions,"
                    "_is_applicable} = the model's functions, for every input", ok_tr,
                    "discharged" if ok_tr else (str(tr.get("extraction_failed")) if isinstance(tr, dict) and "extraction_failed" in tr else detail_tr))
+    ok_py, detail_py = translated_vs_python(run, 400 if run.tier == "quick" else 4000) if ok_tr else (False, "skipped: the translation obligation is not discharged")
+    run.obligation("translated source evaluates like the Python functions (translator + Model/PyLib.lean vs CPython)", ok_py or not ok_tr, detail_py)
     run_cases(run, audit, scale=run.boost * (1 if ok_tr else 2))
     overlap_check(run, (120 if run.tier == "quick" else 1500) * run.boost)
     violations = []
